@@ -12,7 +12,7 @@ dfile=$(python3 -c "import json;print(json.load(open('$mdir/meta.json'))['demo_f
 drun=$(python3 -c "import json;print(json.load(open('$mdir/meta.json'))['demo_run'])")
 cp $mdir/demo_test.go $ddir/$dfile
 tags=""; case "$drun" in *dae_stub_ebpf*) tags="-tags dae_stub_ebpf";; esac
-runre=$(echo "$drun" | grep -o "\-run [^ ]*" | head -1)
+runre=$(echo "$drun" | grep -o "\-run [^ ]*" | head -1 | tr -d "'\"")
 [ -z "$runre" ] && runre="-run ."
 clean=$(go test $tags -vet=off -count=1 $runre ./$ddir 2>&1 | tail -3)
 echo "$clean" | grep -q "^ok" && c1=PASS || c1=FAIL
